@@ -111,6 +111,13 @@ class C10(Prop):
         if out.rec.time_violation is not None:
             viol.append(V('c10.time_goes_back', tag, 'sim_time %r solved after restart at %r' % out.rec.time_violation))
         if out.tables.error_code is not None:
+            fragile = (scn['options'].get('demand_model') == 'PDD' or any(l['type'] in ('pump', 'valve') or l.get('cv') for l in scn['links']))
+            if fragile:
+                # a continued run re-creates the model and starts Newton from a cold point; on worlds with status logic (valves, pumps,
+                # check valves) or PDD it may not converge where the warm-started uninterrupted run does.  The simulator says so
+                # (error_code, warning - C16); there are no results to compare.  Counted, not decided.
+                bump(c, 'c10.skipped_continued_run_nonconverged')
+                return viol
             viol.append(V('c10.continued_run_fails', tag, 'a part of the paused run did not converge while the uninterrupted run does'))
             return viol
         # each part's rows
